@@ -141,6 +141,7 @@ Pts_os2_cap1 == <<OsPt(0, 1, 130), OsPt(1, 2, 130)>>
 Pts_os2_cap2 == <<OsPt(0, 1, 100), OsPt(1, 2, 100)>>
 Pts_mixed    == <<BiPt(0, 2), OsPt(0, 1, 130)>>   \* class 0 reports in type order
 Pts_os_big   == <<BiPt(0, 2), OsPt(0, 1, 250)>>   \* an octet string larger than a 249-byte fragment
+Pts_mixed_pk == <<[BiPt(0, 2) EXCEPT !.sv = 1], OsPt(0, 1, 130)>>   \* the binary input is configured packed (g1v1)
 EvMax_os2    == <<0, 0, 0, 0, 0, 0, 0, 2>>
 EvMax_os1    == <<0, 0, 0, 0, 0, 0, 0, 1>>
 EvMax_mixed  == <<2, 0, 0, 0, 0, 0, 0, 2>>
